@@ -391,6 +391,35 @@ def schema_flow(chk, facts):
     chk.floor(rule, "schema-taking JSON entry points", n, 12)
 
 
+def serialise_all(chk, facts):
+    """Serialisation carries every entity and every component of an entity: the pipelines from the store's entities and
+    from an entity's attrs / ancestors / tags to their JSON forms only map and collect — no dropping adaptor, and no
+    collection that would merge two entries with equal JSON."""
+    from lib import pipeline
+    rule = "C10.PIPE"
+    n = 0
+    for name, what, allow_set in (("cedar_policy_core::entities::Entities::to_ejsons", "every entity of the store", False),
+                                  ("cedar_policy_core::entities::json::entities::EntityJson::from_entity", "every attribute, ancestor and tag of the entity", True)):
+        f = get_fn(chk, facts, rule, name)
+        if f is None:
+            continue
+        drops, coll = pipeline.audit(f, facts.closures_of(f.name))
+        bad_coll = [c for c in coll if not allow_set and any(x in c for x in pipeline.SETTY)]
+        n += 1
+        chk.ob(rule, name.split("::")[-1], not drops and not bad_coll and bool(coll),
+               "%s is mapped and collected without a dropping step (dropping adaptors: %s; set-typed collections: %s; %d collection(s))" % (what, [d for d, _ in drops] or "none", [c[:50] for c in bad_coll] or "none", len(coll)),
+               where=f.where(drops[0][1] if drops else None), fn=f.name, key="%s:%s:%s" % (rule, name.split("::")[-1], ",".join(sorted({d for d, _ in drops}))),
+               sample={"fn": name.split("::")[-1], "collections": len(coll)})
+    for name in ("cedar_policy_core::entities::Entities::to_json_value", "cedar_policy_core::entities::Entities::write_to_json"):
+        f = get_fn(chk, facts, rule, name)
+        if f is None:
+            continue
+        via = [callee(t).split("::")[-1] for _, t in f.calls() if callee(t).startswith("cedar_policy_core::entities::Entities::")]
+        n += 1
+        chk.ob(rule, name.split("::")[-1], via == ["to_ejsons"], "%s serialises what to_ejsons produces (store-level calls: %s)" % (name.split("::")[-1], via), where=f.where(), fn=f.name)
+    chk.floor(rule, "serialisation pipelines", n, 4)
+
+
 def run(chk, facts, tier):
     facts.load_crate("cedar_policy_core.lib")
     chk.explanation = (
@@ -407,3 +436,4 @@ def run(chk, facts, tier):
     implicit_forms(chk, facts)
     parse_types(chk, facts)
     schema_flow(chk, facts)
+    serialise_all(chk, facts)
